@@ -14,7 +14,7 @@ RULE = ('Generated: rule-conforming antennas in free space, over ideal and real 
         'interior / junction / grounded pulses with complex voltages (polar, 1e-3..1e3 V), a complex factor c.  '
         'Oracle: I(cV) = c I(V) with unchanged impedances and dBi pattern (also when a power level 1e-3..1e5 W is '
         'requested for the field table); I(V1..Vn) = sum of I(Vi alone, others '
-        '0 V); Excitation.impedance/power and the parsed SOURCE DATA block equal V/I and Re(V I*)/2 for the '
+        '0 V; on fresh objects and port by port on one object); Excitation.impedance/power and the parsed SOURCE DATA block equal V/I and Re(V I*)/2 for the '
         'current of the feed pulse named by the reference topology.  Non-trivial = >= 2 sources with different '
         'phases, or a source on a junction or grounded pulse.')
 BUDGET = {'quick': {'examples': 1200, 'wall': 200}, 'thorough': {'examples': 40000, 'wall': 1500}}
@@ -176,4 +176,17 @@ def check(case):
         err = np.abs(tot - I).max() / imax
         if err > tol * len(srcs):
             fails.append(('superposition', 'sum of single-source responses differs by %.3g of the largest current (tol %.1g)' % (err, tol)))
+        # (iv) port by port on ONE object: the sources are replaced between the solves (m.sources = [] and
+        # register_source, the way the package's own doctest of compute_impedance_matrix does it)
+        mo = build.model(case)
+        tot = np.zeros_like(I)
+        for k in range(len(srcs)):
+            mo.sources = []
+            mo.register_source(build.mm.Excitation(V[k]), srcs[k]['_idx'])
+            mo.compute()
+            tot = tot + np.array(mo.current)
+        err = np.abs(tot - I).max() / imax
+        if err > tol * len(srcs):
+            fails.append(('superposition:one-object-port-by-port', 'sum of the responses to each source alone, solved one '
+                          'after the other on one object, differs by %.3g of the largest current (tol %.1g)' % (err, tol)))
     return Result(fails=fails, nontrivial=nt, labels=labels)
